@@ -16,6 +16,7 @@ def known_limitation(design):
     listed property); the generator steps around them so that they do not show up as broken correspondence.
       (a) a port reference to a port whose own connection is a BundleRef: BundleRef.__eq__/__hash__ read a
           non-existent `.inst`, which creates a bogus nested reference and crashes bundle flattening."""
+    return None  # (a) was repaired in /repo (BundleRef.__eq__ / __hash__ compare parents); nothing is stepped around any more
     for m in design["modules"]:
         direct = {(i["n"], p): c for i in m["insts"] for p, c in i["conns"]}
 
